@@ -4,7 +4,7 @@ namespace Generated
 open Lock
 
 /-- lock held by `blockstore.Put` while it reads and writes `keys` / `blks` -/
-def putLock : Mode := .read
+def putLock : Mode := .write
 def putMutates : Bool := true
 /-- lock held by `blockstore.Get` while it reads -/
 def getLock : Mode := .read
